@@ -165,8 +165,17 @@ func (d *DKG) StoreDeal(participant string, deal *dkg.Deal) {
 	d.deals[participant] = deal
 }
 
-func (d *DKG) ProcessDeals() ([]*dkg.Response, error) {
-	responses := make([]*dkg.Response, 0)
+func (d *DKG) ProcessDeals() (responses []*dkg.Response, err error) {
+	// kyber checks the fields of a decrypted deal only partly and panics on
+	// malformed ones (wrong nonce length, missing parts): a malformed deal must
+	// be refused with an error, not terminate the process
+	defer func() {
+		if r := recover(); r != nil {
+			responses, err = nil, fmt.Errorf("failed to process deals: malformed deal (%v)", r)
+		}
+	}()
+
+	responses = make([]*dkg.Response, 0)
 	for _, deal := range d.deals {
 		if deal.Index == uint32(d.ParticipantID) {
 			continue
@@ -202,7 +211,14 @@ func (d *DKG) StoreResponses(participant string, responses []*dkg.Response) {
 	}
 }
 
-func (d *DKG) ProcessResponses() error {
+func (d *DKG) ProcessResponses() (err error) {
+	// see ProcessDeals: malformed responses must be an error, not a crash
+	defer func() {
+		if r := recover(); r != nil {
+			err = fmt.Errorf("failed to ProcessResponse: malformed response (%v)", r)
+		}
+	}()
+
 	for _, peerResponses := range d.responses.indexToData {
 		for _, response := range peerResponses {
 			resp := response.(*dkg.Response)
